@@ -37,24 +37,24 @@ Local Open Scope string_scope.
     27  archive_options.c:106  [<fn>]  ARCHIVE_STATE_NEW
     28  archive_options.c:106  [<fn>]  ARCHIVE_STATE_NEW
     29  archive_read.c:118  [archive_read_extract_set_skip_file] direct-call  ARCHIVE_STATE_ANY
-    30  archive_read.c:312  [archive_read_set_open_callback]  ARCHIVE_STATE_NEW
-    31  archive_read.c:323  [archive_read_set_read_callback]  ARCHIVE_STATE_NEW
-    32  archive_read.c:334  [archive_read_set_skip_callback]  ARCHIVE_STATE_NEW
-    33  archive_read.c:345  [archive_read_set_seek_callback]  ARCHIVE_STATE_NEW
-    34  archive_read.c:356  [archive_read_set_close_callback]  ARCHIVE_STATE_NEW
-    35  archive_read.c:367  [archive_read_set_switch_callback]  ARCHIVE_STATE_NEW
-    36  archive_read.c:384  [archive_read_set_callback_data2]  ARCHIVE_STATE_NEW
-    37  archive_read.c:420  [archive_read_add_callback_data]  ARCHIVE_STATE_NEW
-    38  archive_read.c:472  [archive_read_open]  ARCHIVE_STATE_NEW
-    39  archive_read.c:633  [archive_read_next_header]  ARCHIVE_STATE_HEADER | ARCHIVE_STATE_DATA
-    40  archive_read.c:765  [archive_read_header_position]  ARCHIVE_STATE_ANY
-    41  archive_read.c:959  [archive_read_data_skip]  ARCHIVE_STATE_DATA
-    42  archive_read.c:982  [archive_seek_data_block]  ARCHIVE_STATE_DATA
-    43  archive_read.c:1008  [archive_read_data_block]  ARCHIVE_STATE_DATA
-    44  archive_read.c:1080  [archive_read_close]  ARCHIVE_STATE_ANY | ARCHIVE_STATE_FATAL
-    45  archive_read.c:1111  [archive_read_free]  ARCHIVE_STATE_ANY | ARCHIVE_STATE_FATAL
-    46  archive_read.c:1228  [__archive_read_register_format]  ARCHIVE_STATE_NEW
-    47  archive_read.c:1271  [__archive_read_register_bidder]  ARCHIVE_STATE_NEW
+    30  archive_read.c:328  [archive_read_set_open_callback]  ARCHIVE_STATE_NEW
+    31  archive_read.c:339  [archive_read_set_read_callback]  ARCHIVE_STATE_NEW
+    32  archive_read.c:350  [archive_read_set_skip_callback]  ARCHIVE_STATE_NEW
+    33  archive_read.c:361  [archive_read_set_seek_callback]  ARCHIVE_STATE_NEW
+    34  archive_read.c:372  [archive_read_set_close_callback]  ARCHIVE_STATE_NEW
+    35  archive_read.c:383  [archive_read_set_switch_callback]  ARCHIVE_STATE_NEW
+    36  archive_read.c:400  [archive_read_set_callback_data2]  ARCHIVE_STATE_NEW
+    37  archive_read.c:436  [archive_read_add_callback_data]  ARCHIVE_STATE_NEW
+    38  archive_read.c:488  [archive_read_open]  ARCHIVE_STATE_NEW
+    39  archive_read.c:649  [archive_read_next_header]  ARCHIVE_STATE_HEADER | ARCHIVE_STATE_DATA
+    40  archive_read.c:781  [archive_read_header_position]  ARCHIVE_STATE_ANY
+    41  archive_read.c:975  [archive_read_data_skip]  ARCHIVE_STATE_DATA
+    42  archive_read.c:998  [archive_seek_data_block]  ARCHIVE_STATE_DATA
+    43  archive_read.c:1024  [archive_read_data_block]  ARCHIVE_STATE_DATA
+    44  archive_read.c:1096  [archive_read_close]  ARCHIVE_STATE_ANY | ARCHIVE_STATE_FATAL
+    45  archive_read.c:1127  [archive_read_free]  ARCHIVE_STATE_ANY | ARCHIVE_STATE_FATAL
+    46  archive_read.c:1244  [__archive_read_register_format]  ARCHIVE_STATE_NEW
+    47  archive_read.c:1287  [__archive_read_register_bidder]  ARCHIVE_STATE_NEW
     48  archive_read_add_passphrase.c:92  [archive_read_add_passphrase]  ARCHIVE_STATE_NEW
     49  archive_read_add_passphrase.c:115  [archive_read_set_passphrase_callback]  ARCHIVE_STATE_NEW
     50  archive_read_data_into_fd.c:93  [archive_read_data_into_fd]  ARCHIVE_STATE_DATA
@@ -161,8 +161,8 @@ Local Open Scope string_scope.
    151  archive_write_disk_posix.c:1985  [archive_write_disk_set_user_lookup]  ARCHIVE_STATE_ANY
    152  archive_write_disk_posix.c:2001  [archive_write_disk_gid]  ARCHIVE_STATE_ANY
    153  archive_write_disk_posix.c:2012  [archive_write_disk_uid]  ARCHIVE_STATE_ANY
-   154  archive_write_disk_posix.c:2556  [archive_write_disk_close]  ARCHIVE_STATE_HEADER | ARCHIVE_STATE_DATA
-   155  archive_write_disk_posix.c:2691  [archive_write_disk_free]  ARCHIVE_STATE_ANY | ARCHIVE_STATE_FATAL
+   154  archive_write_disk_posix.c:2555  [archive_write_disk_close]  ARCHIVE_STATE_HEADER | ARCHIVE_STATE_DATA
+   155  archive_write_disk_posix.c:2690  [archive_write_disk_free]  ARCHIVE_STATE_ANY | ARCHIVE_STATE_FATAL
    156  archive_write_disk_windows.c:842  [archive_write_disk_header]  ARCHIVE_STATE_HEADER | ARCHIVE_STATE_DATA
    157  archive_write_disk_windows.c:1069  [archive_write_disk_set_skip_file]  ARCHIVE_STATE_ANY
    158  archive_write_disk_windows.c:1165  [archive_write_data_block]  ARCHIVE_STATE_DATA
